@@ -178,15 +178,17 @@ var c34Works = []c34Work{
 		// preimage, service 2 only in the preimages (pre = 2)
 		reported: c34Report{core: 0, length: 101, exports: 0, authGas: 7, results: []c34Load{{1, 1000, 2, 3, 5, 70}}},
 		acc:      []c34Acc{{7, 13000, 0}, {2, 900, 0}},
+		// export counts around the point where 65*n+63 no longer fits 16 bits (n = 1007 | 1008)
+		available: []c34Report{{core: 0, length: 131, exports: 1007, results: []c34Load{{1, 1, 1, 1, 1, 1}}}, {core: 1, length: 137, exports: 1008, results: []c34Load{{1, 1, 1, 1, 1, 1}}}},
 	},
 	{ // 1: two results for two services on core 1; one available report; one accumulated service
 		reported:  c34Report{core: 1, length: 211, exports: 3, authGas: 11, results: []c34Load{{1, 2000, 7, 11, 13, 170}, {2, 3000, 17, 19, 23, 290}}},
-		available: []c34Report{{core: 1, length: 307, exports: 64, results: []c34Load{{3, 1, 1, 1, 1, 1}}}},
+		available: []c34Report{{core: 1, length: 307, exports: 3072, results: []c34Load{{3, 1, 1, 1, 1, 1}}}}, // 3072 = the legal maximum of exports
 		acc:       []c34Acc{{1, 5000, 1}, {8, 0, 2}}, // service 8: reports > 0, gas = 0, accumulation statistics only
 	},
 	{ // 2: two results for the same service; two available reports; two accumulated services (one otherwise unseen)
 		reported:  c34Report{core: 1, length: 401, exports: 1, authGas: 13, results: []c34Load{{2, 31, 37, 41, 43, 470}, {2, 53, 59, 61, 67, 710}}},
-		available: []c34Report{{core: 0, length: 503, exports: 1, results: []c34Load{{1, 1, 1, 1, 1, 1}}}, {core: 1, length: 601, exports: 65, results: []c34Load{{1, 1, 1, 1, 1, 1}}}},
+		available: []c34Report{{core: 0, length: 503, exports: 64, results: []c34Load{{1, 1, 1, 1, 1, 1}}}, {core: 1, length: 601, exports: 65, results: []c34Load{{1, 1, 1, 1, 1, 1}}}},
 		acc:       []c34Acc{{2, 7000, 2}, {9, 11000, 3}},
 	},
 }
